@@ -14,7 +14,10 @@ def _classes():
 
         def __len__(self): return self.n
         def getitem_x(self, idx, ctx=None): return (self.rid, idx if idx >= 0 else idx + self.n)
-        def getall_x(self): return [(self.rid, i) for i in range(self.n)]
+        def getall_x(self):
+            if not hasattr(self, "_all_x"):
+                self._all_x = [(self.rid, i) for i in range(self.n)]
+            return self._all_x          # hands out its internal list (a dataset is allowed to)
         def getitem_class(self, idx, ctx=None): return ((idx if idx >= 0 else idx + self.n) + self.rid) % 3
         def getall_class(self): return [(i + self.rid) % 3 for i in range(self.n)]
         def getshape_class(self): return (3,)
@@ -80,9 +83,12 @@ def check_spec(spec):
             got = ds.getitem_x(k)
             if got != exp[k]:
                 return {"what": "item k is not item map(k) of the underlying dataset", "k": k, "expected": exp[k], "observed": got}
-        ga = ds.getall_x()
-        if list(ga) != exp:
-            return {"what": "getall_x disagrees with getitem_x", "expected": exp, "observed": list(ga)}
+        for attempt in range(2):        # the bulk accessor must stay right when it is called again
+            ga = ds.getall_x()
+            if list(ga) != exp:
+                return {"what": "getall_x disagrees with getitem_x", "call": attempt + 1, "expected": exp, "observed": list(ga)}
+        if len(ds) != n:
+            return {"what": "len changed after calling the bulk accessor", "expected": n, "observed": len(ds)}
         gc = list(ds.getall_class())
         if n and gc != [ds.getitem_class(k) for k in range(n)]:
             return {"what": "getall_class disagrees with getitem_class"}
